@@ -88,7 +88,8 @@ def allPlacedIfRoomB (src out : Chart) : Bool :=
 
 /-! ### hypotheses (`dom`) -/
 
-/-- no file name of the source contains the separator `;` (else `";".join` / `.split(";")` cuts it: D19c) -/
+/-- no file name of the source contains `;` — no longer a hypothesis of any C18 theorem since the D19c repair
+(the names of a volume group are kept as a list); kept because C15's order-invariance theorems still carry it -/
 def noSep (src : Chart) : Bool := (notesOf src).all (fun n => !n.file.contains sep)
 /-- every hold has a length — a domain hypothesis: the property quantifies over charts with "hits and holds on
 either side", and a hold is a note with a length (zero and negative lengths included). A row of the hold list
